@@ -163,3 +163,18 @@ impl<VM: VMBinding, P: ConcurrentPlan<VM = VM> + PlanTraceObject<VM>, const KIND
         });
     }
 }
+
+#[cfg(feature = "mmtk_verif")]
+impl<VM: VMBinding, P: ConcurrentPlan<VM = VM> + PlanTraceObject<VM>, const KIND: TraceKind>
+    SATBBarrierSemantics<VM, P, KIND>
+{
+    /// Verification hook: take the contents of the mutator-local SATB buffer (what `flush_satb`
+    /// would hand to a `ProcessModBufSATB` packet), leaving it empty.
+    pub fn verif_take_satb(&mut self) -> Vec<ObjectReference> {
+        self.satb.take()
+    }
+    /// Verification hook: number of entries in the mutator-local SATB buffer.
+    pub fn verif_satb_len(&self) -> usize {
+        self.satb.len()
+    }
+}
